@@ -50,14 +50,19 @@ class C10(Prop):
             sys = gs.gen_system(rng, mrange=(2, 4), nrange=(2, 6), finite_ub=True, Kkind=rng.choice(["none", "scalar", "vector"]))
             m = sys["m"]
             S = rng.randint(1, 8 if tier == "quick" else 50)
-            scen = rng.choice(["all-inside", "mixed", "mixed", "far", "far-neg"])
+            scen = rng.choice(["all-inside", "mixed", "mixed", "far", "far-neg", "bright-desat"])
             B = []
             for _ in range(S):
-                want = {"all-inside": "inside", "mixed": rng.choice(["inside", "outside"]), "far": rng.choice(["outside", "far"]), "far-neg": rng.choice(["outside", "far"])}[scen]
+                want = {"all-inside": "inside", "mixed": rng.choice(["inside", "outside"]), "far": rng.choice(["outside", "far"]), "far-neg": rng.choice(["outside", "far"]),
+                        "bright-desat": "inside"}[scen]
                 got = gs.gen_target_regime(rng, sys, want)
                 if got is None:
                     break
                 bb = np.asarray(got[1], dtype=float).copy()
+                if scen == "bright-desat":
+                    # too bright but less saturated than the gamut allows: the best pair dims the total and may STRETCH the chroma (scale > 1)
+                    tot = bb.sum(); nh = np.ones(m) / m
+                    bb = nh * tot * rng.choice([1.5, 2.0, 3.0]) + (bb - nh * tot) * rng.choice([0.25, 0.5, 0.75])
                 if scen == "far-neg" and (len(B) == 0 or rng.random() < 0.5):
                     bb[rng.randrange(m)] = -rng.randint(1, 8) / 4        # so far outside in the chromatic direction that one capture is negative
                 B.append(bb.tolist())
